@@ -2,7 +2,7 @@
 from contracts import radiometry as _r
 
 META = {
-    'level_text': 'Proof (interpolation and grid validation abstract): resample and in-place append either succeed with one value per wavelength on the requested / extended grid (retained samples unchanged) or are refused and then leave wave AND value exactly as they were; bin with the trapezoid rule for three centres in nm and um, both end treatments: one value per centre, edges at the mid-points, each bin the trapezoid of the two edge samples taken in the REQUESTED unit, and with power preservation the bins are normalised against integrate(min, max) with the same rule and sum to it; the trapezoid sum is linear in the values and exact for linear data (library contract of np.trapz). Spectrum.integrate with the trapezoid rule on the real code (all grid lengths; no range, one-sided and two-sided ranges): the result is the trapezoid sum over exactly the consecutive sample pairs inside the closed range (the selection np.intersect1d(np.where, np.where) is shown contiguous from the class invariant), an unknown method raises ValueError, the spectrum is not modified; over that postcondition, additivity over adjacent intervals meeting at a sample point and linearity in the values are proved. Simpson integration and binning, non-negativity, crop / trim / pad and random sequences of resizing operations including refused ones are bounded native stand-ins.',
+    'level_text': 'Proof (interpolation and grid validation abstract): resample and in-place append either succeed with one value per wavelength on the requested / extended grid (retained samples unchanged) or are refused and then leave wave AND value exactly as they were; bin with the trapezoid rule for three centres in nm and um, both end treatments: one value per centre, edges at the mid-points, each bin the trapezoid of the two edge samples taken in the REQUESTED unit, and with power preservation the bins are normalised against integrate(min, max) with the same rule and sum to it; the trapezoid sum is linear in the values and exact for linear data (library contract of np.trapz). Spectrum.integrate with the trapezoid rule on the real code (all grid lengths; no range, one-sided and two-sided ranges): the result is the trapezoid sum over exactly the consecutive sample pairs inside the closed range (the selection np.intersect1d(np.where, np.where) is shown contiguous from the class invariant), an unknown method raises ValueError, the spectrum is not modified; over that postcondition, additivity over adjacent intervals meeting at a sample point and linearity in the values are proved. Spectrum.trim (0 <= tol < 1) and Spectrum.crop (at least one sample in range) on the real code, any grid length: trim keeps exactly the block from the first to the last sample above tol * max(value) (all-zero spectra untouched, non-positive maxima refused and untouched), crop keeps exactly the samples of the closed range [lo, hi] (np.where / np.delete selections, composed over both ends); retained wavelengths and values are unaltered and stay paired and every grid handed to the wavelength setter is positive and strictly increasing. Simpson integration and binning, non-negativity, pad, crop at sample points, and random sequences of resizing operations including refused ones are bounded native stand-ins.',
     'level_note': 'scipy interp1d / simpson, numpy sort / where / delete / intersect1d based selection code is outside the verifier: covered natively. The wavelength-grid validation is an abstract validity flag in the proofs (its refusal behaviour is exercised natively). A2 reals.',
 }
 FUNCTIONS = list(_r.INTEGRATE)
